@@ -79,6 +79,9 @@ class _Clock:
     t = 0
     tick = False
     on_enter = None      # called when nested_sampling_loop is entered
+    unit = 1             # seconds per tick (an exact binary fraction).  Integer seconds hide anything that keeps only a PART
+    #                      of a duration (whole seconds, seconds without days): 1.5 s exercises the sub-second part, 40000.5 s
+    #                      reaches days after three ticks (seeded change C12-gB: `timedelta.seconds` instead of total_seconds())
 
 
 CLOCK = _Clock()
@@ -89,7 +92,7 @@ class FakeDT(datetime.datetime):
 
     @classmethod
     def now(cls, tz=None):
-        return cls(2026, 1, 1) + datetime.timedelta(seconds=CLOCK.t)
+        return cls(2026, 1, 1) + datetime.timedelta(seconds=CLOCK.t * CLOCK.unit)
 
 
 def _ticks(x):
@@ -100,6 +103,7 @@ def _ticks(x):
         s = (x - EPOCH).total_seconds()
     else:
         s = float(x)
+    s = s / CLOCK.unit
     if s != int(s):
         return s
     return int(s)
@@ -109,6 +113,9 @@ class LogicalTime:
     """patch the modules that keep the accounts so that they read the logical clock; tick only inside the sampling loop"""
 
     MODULES = ("nessai.samplers.base", "nessai.samplers.nestedsampler", "nessai.samplers.importancesampler", "nessai.model")
+
+    def __init__(self, unit=1):
+        self.unit = unit
 
     def __enter__(self):
         import importlib
@@ -144,12 +151,14 @@ class LogicalTime:
         for p in self.patches:
             p.start()
         CLOCK.t, CLOCK.tick, CLOCK.on_enter = 0, False, None
+        CLOCK.unit = self.unit
         return self
 
     def __exit__(self, *a):
         for p in self.patches:
             p.stop()
         CLOCK.tick, CLOCK.on_enter = False, None
+        CLOCK.unit = 1
 
 
 class Recorder:
@@ -912,7 +921,7 @@ def chain(ctx, kind, cfg, seed, kills, downs, handler_ckpt=False, train_signal=N
     final = None
     survived = 0
     try:
-        with LogicalTime(), flows_ctx(cfg), DumpHook(hook), \
+        with LogicalTime(unit=(1, 1.5, 40000.5)[seed % 3]), flows_ctx(cfg), DumpHook(hook), \
                 (mock.patch.object(_FM, "train", train_with_signal) if (kind == "std" and train_signal is not None) else NoFlows()):
             if kind == "std":
                 from . import c01
